@@ -35,7 +35,7 @@ CHECKS["C13"] = (
     "127/128/129/4095/4096/4097 bytes (symbolic fill byte) round-trip or are rejected.",
     BASE_NOTE + "Typed scalars (string, optional string, int64, int32 widening, float64 bit patterns, bool, time incl. an arbitrary instant, nil), containers (maps / lists, "
     "nesting, empty containers), field-checker-restricted writes (every setter kind, null optional values included) and the read-modify-write setters "
-    "(GetAndSetString / GetAndSetStringList) overwriting a stored string list with any list over old and new elements incl. repeats, and lists of 255 / 256 / 257 / 300 elements (top level and nested) are separate harnesses of the same check (see evidence).",
+    "(GetAndSetString / GetAndSetStringList) overwriting a stored string list with any list over old and new elements incl. repeats, and lists of 255 / 256 / 257 / 300 elements (top level and nested), the defaulting getters (stored value vs null / absent), a mapped field checker and TypedBucket.Copy under a path filter (scalars, nulls, buckets two levels down) are separate harnesses of the same check (see evidence).",
     "6/C13")
 CHECKS["C14"] = (
     "For every strictly ordered set of <=3 byte strings of <=2 arbitrary bytes (empty string and shared prefixes included) "
@@ -59,7 +59,7 @@ CHECKS["C03"] = (
     "raw unique-index and set-index buckets (and ReadIndex.Read / SetReadIndex.Read / ReadKeys) hold exactly what the successor state implies (no stale, extra or empty keys). One step from every valid state "
     "covers histories of any length over these bounds (thorough additionally runs a second operation from the state the first one left). Plus: a child-store entity and a plain one with arbitrary role sets; delete or role rewrite of the child "
     "entity through either store leaves the parent's indexes exact; and transactions of 2 (quick) / 3 (thorough) operations (create / update / delete with "
-    "symbolic slots and names: value reuse after delete and swaps inside one transaction), accepted iff the model accepts each in turn, rolled back as a whole otherwise.",
+    "symbolic slots and names: value reuse after delete and swaps inside one transaction), accepted iff the model accepts each in turn, rolled back as a whole otherwise; and the same inductive step on a store whose indexed symbols are named unlike the fields they are stored under (AddSymbolWithKey; field checkers name the fields).",
     BASE_NOTE + "bbolt = mbolt model (validated against bbolt; rollback on error holds by construction and is assumed of bbolt). The three index kinds are "
     "checked in separate harnesses with the other fields fixed. Outside: longer values, more entities, set members that are empty strings.",
     "6/C03")
@@ -193,13 +193,13 @@ CHECKS["C09"] = (
     "6/C09")
 CHECKS["C15"] = (
     "Parent store + child store (plain and Extended), 2 slots each absent / plain parent / parent+child with symbolic names and child field; one symbolic "
-    "operation through either store (create, update, delete, patch through the child naming only the child field, patch through the parent naming only the shared "
+    "operation through either store (create, update, delete, DeleteWhere with a filter on the shared field, patch through the child naming only the child field, patch through the parent naming only the shared "
     "field; empty and duplicate names included); every entity holds a role (parent set index) and a link to a dept (parent link collection). Asserted on every path: accepted iff the reference model "
     "accepts it (the parent's non-nullable unique index applies to both stores); parent part, child data, shared field, parent unique index, parent set index and the dept's member list exactness; child store "
     "FindById / QueryIds / sorted QueryIds with limit / IterateValidIds return exactly the entities with child data (all parent entities for lookups and queries "
     "when extended); parent store queries return every entity.",
     BASE_NOTE + "The child update handler's mapper is the harness's (copies the caller's shared fields onto the stored child). Create through the child store of an "
-    "existing plain parent id and delete through the child store of an entity without child data are outside (not constrained by the statement).",
+    "existing plain parent id and delete (DeleteById / DeleteWhere) through an extended child store of an entity without child data are outside (not constrained by the statement).",
     "6/C15")
 
 CHECKS["C01"] = (
@@ -209,7 +209,7 @@ CHECKS["C01"] = (
     "null or symbolic (strings <=2/3 bytes, full-width int64, all float64 bit patterns, datetimes arbitrary instants of year 1..9999 with nanoseconds, datetime literals also written with a zone offset): real typer + evaluator == spec. "
     "(2)+(3) Through the store on symbolic populations of 2 (quick) / 3 (thorough) entities: anyOf / allOf / count / isEmpty over a direct string set (elements "
     "arbitrary bytes; the index-seek shortcut is compared with the scan semantics), scalars, fk-dotted symbols, the back-reference set, three-level set paths, "
-    "sub-queries, map elements holding a string / int64 / bool / nothing, float64 / bool / datetime (arbitrary instants) / int32-stored fields incl. dotted access, function symbols (NewStringFuncSymbol / "
+    "sub-queries (also with their own skip / limit, evaluated afresh for every outer row), map elements holding a string / int64 / bool / nothing, float64 / bool / datetime (arbitrary instants) / int32-stored fields incl. dotted access, function symbols (NewStringFuncSymbol / "
     "NewBoolFuncSymbol), a field under an aliased symbol name and under a NotNilStringMapper: QueryIds returns exactly the satisfying ids, once each, with the right "
     "count, and IterateIds with the same filter yields the same ids.",
     BASE_NOTE + "Programs are enumerated (parsed by the real parser natively, replayed into the real listener). Known finding KF-C01-null-bool-reads-false. "
@@ -231,12 +231,12 @@ CHECKS["C17"] = (
     "(1) Snapshot / restore round trip through the real Snapshot and RestoreFromReader: state A (1-2 indexed entities, symbolic name), snapshot, one further "
     "committed transaction of any of five kinds (nothing, create, delete, update, delete all), restore of the snapshot file: the logical content outside the "
     "metadata bucket equals state A, the stores serve state A again, the database reports the snapshot id Snapshot returned, the restore listener fired once, "
-    "the next timeline-id request returns a fresh id exactly once. (2) Marker / timeline slice: from an arbitrary metadata state (reset marker absent / true / false, stored timeline id absent or a symbolic string) a "
+    "the next timeline-id request returns a fresh id exactly once; then optionally further committed work and a second restore of the same snapshot with the same assertions (listener fired twice). (2) Marker / timeline slice: from an arbitrary metadata state (reset marker absent / true / false, stored timeline id absent or a symbolic string) a "
     "GetTimelineId request in any of the three modes with a succeeding or failing id source: a fresh id is produced exactly when due, stored, the marker cleared; "
     "otherwise the stored id is returned without consulting the source; a failing source changes nothing; the following request returns the same id (fresh exactly "
     "once). Snapshot (real code incl. SnapshotInTx and MarkAsSnapshot over the modelled CopyFile/Open) marks the copy, not the live database; the copy reports the "
     "returned snapshot id, carries the snapshot-time content and yields a fresh timeline id exactly once.",
-    BASE_NOTE + "Database files are entries of the bbolt model's registry (path -> database image): os.Create / os.Open / io.Copy / os.Rename / File.Close act on it, "
+    BASE_NOTE + "Database files are entries of the bbolt model's registry (path -> database image): os.Create / os.Open / io.Copy / os.Rename / os.Remove / File.Close act on it, "
     "tx.CopyFile forks an image; the native replay uses real files. NOT claimed (DESIGN.md section 7): byte-level equality of the copied file, I/O errors during "
     "the restore, and atomicity with respect to concurrent transactions - scheduling is not encodable.",
     "6/C17")
